@@ -18,7 +18,7 @@ BASE = frozenset(
 )
 # Hazard words (block-marker look-alikes) inside full documents; `haz_fence` stays off: an escaped "```" word followed by a
 # code span is misread by Marko's inline parser (reader limitation, DESIGN §6), the exhaustive sweep of C01 covers the word itself.
-HAZ = frozenset("autolink tags html footnote_simple indcode code_taglike table_nested olist_paren haz_bullet haz_ordered haz_atx haz_quote haz_rule haz_setext haz_pipe haz_misc haz_gtx haz_backslash".split())
+HAZ = frozenset("link_angle autolink tags html footnote_simple indcode code_taglike table_nested olist_paren haz_bullet haz_ordered haz_atx haz_quote haz_rule haz_setext haz_pipe haz_misc haz_gtx haz_backslash".split())
 
 
 ENABLED: dict[str, frozenset] = {
